@@ -558,7 +558,7 @@ class Evaluator:
             argv.append(v)
             ts.append(t)
         pre = cat(*ts)
-        local = e.get('local')
+        local = e.get('local') or e.get('crate') == 'parity_scale_codec'
         # ------------------------------------------------ Output effects
         if tr == 'Output' and name in ('push_byte', 'write') and local:
             tgt = argv[0]
